@@ -94,6 +94,9 @@ func (r *Rec) Write(b []byte) (int, error) {
 
 func (r *Rec) Flush() { r.Calls = append(r.Calls, Call{Kind: "F"}) }
 
+// FlushError is what net/http's own response writers offer to http.ResponseController.
+func (r *Rec) FlushError() error { r.Flush(); return nil }
+
 // Hijack makes the recorder usable by handlers that take over the connection (websocket
 // style). The connection handed out is one end of an in-memory pipe.
 func (r *Rec) Hijack() (net.Conn, *bufio.ReadWriter, error) {
